@@ -116,7 +116,7 @@ def members():
         a.supp(F, [2], a.ge(z, 2.0), a.le(z, 4.0))
         a.expt(F, [0, 1], a.le(a.Ez(z), 1.25))
         a.prob(F, a.ge(p, 0.125))
-        a.minsup(a.E(x[0] + a.sum(A([0.5, 1.0]) * x) - 0.25 * z), F)
+        a.minsup(a.E(x[0] + a.sum(A([0.5, 1.0]) * x) + 0.5 * z), F)    # the sub-event mean bound is binding
         a.st(a.ge(x[0] + x[1], z))
         a.st(a.ge(x, 0.0))
         a.st(a.le(x, 6.0))
